@@ -1327,8 +1327,16 @@ class LogixDriver(CIPDriver):
             tag_info = self._get_tag_info(base, attrs)
 
             for _indexes in tag.split("[")[1:]:
-                if not all(_idx.isdigit() for _idx in _indexes.split("]")[0].split(",")):
+                if not all(
+                    _idx.isdigit() and int(_idx) <= 0xFFFF_FFFF for _idx in _indexes.split("]")[0].split(",")
+                ):
                     raise RequestError(f"Invalid array index in tag request: {request_tag}")
+
+            if bit is not None and tag_info["data_type"] != "DWORD":
+                _bit_type = DataTypes.get(tag_info.get("data_type_name"))
+                _bit_size = getattr(_bit_type, "size", None)
+                if _bit_size and bit >= _bit_size * 8:
+                    raise RequestError(f"Invalid bit number in tag request: {request_tag}")
 
             if tag_info["data_type"] == "DWORD":
                 _tag, idx = util.get_array_index(tag)
